@@ -50,6 +50,13 @@ def transfers(config):
             ["transfer", wl, "Q", ["C02", "A01", "C02"], "U", ["A01", "A03", "A01"], [v, v + 1, v + 2], {}],
             ["transfer", wl, "T", "A01", "Q", {"$w2d": ["Q", 0, 3, 0, 2]}, {"$a": [[v, v + 1], [v + 2, v + 3], [v + 4, v + 5]]}, {}],
         ]
+        if config["set"] == "WIDE":
+            # above the worklist's max_volume of 950: [500, 500] next to [800], [475.5, 475.5] next to [950]
+            ev += [
+                ["transfer", wl, "T", ["A01", "B01"], "P", ["A01", "B01"], [1000, 800], {}],
+                ["transfer", wl, "T", ["A02", "B02", "C02"], "Q", ["A01", "B01", "C01"], [951, 950, 1902], {}],
+                ["transfer", wl, "P", ["A02", "B02"], "Q", ["A02", "A02"], [1000, 999.5], {"partition_by": "destination"}],
+            ]
     # distribute: the source column is charged once per listed destination well (repeats and trough aliases included)
     for wl in ("e", "f"):
         ev += [
